@@ -83,6 +83,37 @@ def generate(repo):
     if not g or not isinstance(g[0].body[0], ast.Raise): raise Refuse('ends: guard')
     A(f'/-- `ends`: refusal `{ast.unparse(g[0].test)}` -/')
     A(f'def trimRefuses (m : Rat) : Bool := {_expr(src, g[0].test, {"max(self.value)": "m"})}')
+    # ---- append: overlap refusal (element test of `np.any(other.wave <= self.wave)`)
+    app = _method(cls, 'append')
+    g = [st for st in app.body if isinstance(st, ast.If) and isinstance(st.body[0], ast.Raise) and isinstance(st.test, ast.Call) and ast.unparse(st.test.func) == 'np.any']
+    if len(g) != 1 or len(g[0].test.args) != 1 or g[0].orelse: raise Refuse('append: `if np.any(<cmp>): raise` guard')
+    exc = g[0].body[0].exc
+    if ast.unparse(exc.func if isinstance(exc, ast.Call) else exc) != 'ValueError': raise Refuse('append: the overlap refusal is not a ValueError')
+    A(f'/-- `append`: refused (ValueError) when any `{ast.unparse(g[0].test.args[0])}` (element-wise, broadcast) -/')
+    A(f"def appendRefusesAt (ow sw : Rat) : Bool := {_expr(src, g[0].test.args[0], {'other.wave': 'ow', 'self.wave': 'sw'})}")
+    # ---- trim: the retained slice `[index_min:index_max + 1]` (same for wave and value)
+    tr = _method(cls, 'trim')
+    sl = {}
+    for st in tr.body:
+        if isinstance(st, ast.Assign) and ast.unparse(st.targets[0]) in ('self.wave', 'self.value'):
+            v = st.value
+            if not (isinstance(v, ast.Subscript) and ast.unparse(v.value) == ast.unparse(st.targets[0]) and isinstance(v.slice, ast.Slice) and v.slice.step is None
+                    and v.slice.lower is not None and v.slice.upper is not None):
+                raise Refuse('trim: assignment is not a plain slice of the same attribute')
+            sl[ast.unparse(st.targets[0])] = v.slice
+    if sorted(sl) != ['self.value', 'self.wave']: raise Refuse('trim: slices of wave and value expected')
+    if ast.unparse(sl['self.wave']) != ast.unparse(sl['self.value']): raise Refuse('trim: wave and value are sliced differently')
+    unp = [st for st in tr.body if isinstance(st, ast.Assign) and ast.unparse(st.targets[0]).strip('()') == 'index_min, index_max']
+    if len(unp) != 1 or ast.unparse(unp[0].value) != 'self.ends(tol)': raise Refuse('trim: index_min, index_max = self.ends(tol)')
+    def _iexpr(e):
+        k = ast.unparse(e)
+        if k in ('index_min', 'index_max'): return k
+        if isinstance(e, ast.Constant) and type(e.value) is int: return str(e.value)
+        if isinstance(e, ast.BinOp) and type(e.op) in (ast.Add, ast.Sub): return f"({_iexpr(e.left)} {'+' if isinstance(e.op, ast.Add) else '-'} {_iexpr(e.right)})"
+        raise Refuse(f'trim: slice bound {k}')
+    A(f'/-- `trim`: retained slice `[{ast.unparse(sl["self.wave"])}]` of both `wave` and `value` -/')
+    A(f'def trimSliceStart (index_min index_max : Int) : Int := {_iexpr(sl["self.wave"].lower)}')
+    A(f'def trimSliceStop (index_min index_max : Int) : Int := {_iexpr(sl["self.wave"].upper)}')
     # ---- pad: sample counts
     pad = _method(cls, 'pad')
     for nm, ln in (('nleft', 'padNLeft'), ('nright', 'padNRight')):
